@@ -2,8 +2,9 @@
 C09 — Package v1 behaves like the classic encoding/json (PARTIAL).
 
 What is proved here concerns v1's OWN pure code (model: JsonV.Model.V1, tied to /repo/v1 and to the toolchain's
-encoding/json by the three-way correspondence of harness/c09_model.go): `appendHTMLEscape` for ALL byte strings,
-well-formed UTF-8 or not.  Equality of Marshal/Unmarshal/Encoder/Decoder with the classic reflection engine is
+encoding/json by the three-way correspondence of harness/c09_model.go), for ALL byte strings, well-formed UTF-8 or not:
+`appendHTMLEscape`; `v1.Valid` (exactly the RFC 8259 texts, through slice C01); `v1.Compact` and `v1.Indent` with blank
+AND non-blank prefix/indent (through slice C12; the trailing-whitespace clause of defect D4 included).  Equality of Marshal/Unmarshal/Encoder/Decoder with the classic reflection engine is
 NOT a theorem: it is validated differentially only (harness/c09*.go), see meta/C09.json.
 -/
 import JsonV.Model.V1
@@ -62,10 +63,15 @@ theorem htmlEscape_unescape_partial (b : Bytes) (hb : ∀ x ∈ b, x ≠ 0x5C) :
 
 example : ∀ x ∈ ([0x22, 0x3C, 0xE2, 0x80, 0xA8, 0x22] : Bytes), x ≠ 0x5C := by decide
 
-/-- Meaning preserved (full statement, NOT proved; evaluated on every generated input by harness/c09_model.go):
-for every byte string — with or without pre-existing escapes — the escaped text and the original decode to the
-same bytes once the five escapes are undone.  For JSON texts this says that the value is unchanged. -/
-def htmlEscape_unescape_full : Prop := ∀ b : Bytes, unescape (htmlEscape b) = unescape b
+/-- **Meaning preserved, for EVERY byte string** (with or without pre-existing backslashes and escapes): the escaped
+text and the original decode to the same bytes once the five escapes are undone.  For JSON texts this says that the
+value is unchanged. -/
+theorem htmlEscape_unescape (b : Bytes) : unescape (htmlEscape b) = unescape b :=
+  unescape_htmlEscape_all b.length b (Nat.le_refl _)
+
+-- a text that already contains an escape and a lone backslash before `<`
+example : unescape (htmlEscape [0x5C, 0x75, 0x30, 0x30, 0x33, 0x63, 0x5C, 0x3C]) = [0x3C, 0x5C, 0x3C] := by
+  rw [htmlEscape_unescape]; simp [unescape, unesc6]
 
 /-! ## v1.Valid — through slice C01's validator and grammar
 
@@ -86,9 +92,13 @@ theorem v1valid_sound (b : Bytes) (h : valid b = true) :
 theorem v1valid_no_fuel (b : Bytes) : (Model.Validate.validText permissive b).2 ≠ .fuel :=
   Props.C01.valid_no_fuel permissive b
 
-/-- NOT proved (inherited from C01.valid_complete_full): every text of that grammar is accepted. -/
-def v1valid_complete_full : Prop :=
-  ∀ b : Bytes, Spec.Grammar.JText ⟨false, true⟩ 10000 (Props.C01.nameKey permissive) b → valid b = true
+/-- **v1.Valid accepts EXACTLY the RFC 8259 texts** (strings with arbitrary bytes ≥ 0x20 and any `\\uXXXX`, duplicate
+names allowed, depth at most 10000), for every byte string (C01.valid_iff at the flags `checkValid` sets). -/
+theorem v1valid_iff (b : Bytes) :
+    valid b = true ↔ Spec.Grammar.JText ⟨false, true⟩ 10000 (Props.C01.nameKey permissive) b := by
+  have := Props.C01.valid_iff permissive b
+  rw [Props.C01.tie_maxDepth] at this
+  exact this
 
 /-- TRUSTED ASSUMPTION, stated explicitly: the classic scanner (encoding/json/scanner.go `checkValid`) accepts exactly
 the same grammar — by its documentation (RFC 8259 syntax; invalid UTF-8 and duplicate names are not syntax errors;
@@ -197,6 +207,41 @@ theorem v1indent_blank_meaning (pre ind src out : Bytes) (hp : isBlank pre = tru
     obtain ⟨ts, hts, _, _⟩ := (Props.C12.format_eq_some _ src body).mp hf
     rw [hts] at hm ⊢
     exact tokenize_append_ws body _ ts hm (trailingWs_allWs src)
+
+/-! ### against the grammar of C01 (through C12.tokenize_iff_text) -/
+
+/-- v1.Compact succeeds exactly on the RFC 8259 texts (same grammar instance as v1.Valid; `key` is irrelevant
+because duplicate names are allowed). -/
+theorem v1compact_ok_iff_text (key : Bytes → Bytes) (src : Bytes) :
+    (compact src).isSome = true ↔ Spec.Grammar.JText ⟨false, true⟩ 10000 key src :=
+  Props.C12.format_ok_iff_text key Fmt.compactOpts src
+
+/-- v1.Indent succeeds exactly on the same texts, for EVERY prefix and indent (blank or not). -/
+theorem v1indent_ok_iff_text (key : Bytes → Bytes) (pre ind src : Bytes) :
+    (indent pre ind src).isSome = true ↔ Spec.Grammar.JText ⟨false, true⟩ 10000 key src := by
+  rw [(v1_compact_indent_succeed_together pre ind src).2]
+  exact Props.C12.tokenize_iff_text key src
+
+/-- **Valid, Compact and Indent succeed together** (the "succeed or fail together" clause among v1's own three
+entry points, for all byte strings and all prefixes/indents). -/
+theorem v1_valid_compact_indent_together (pre ind b : Bytes) :
+    (valid b = true ↔ (compact b).isSome = true) ∧ (valid b = true ↔ (indent pre ind b).isSome = true) :=
+  ⟨(v1valid_iff b).trans (v1compact_ok_iff_text _ b).symm, (v1valid_iff b).trans (v1indent_ok_iff_text _ pre ind b).symm⟩
+
+/-- Blank prefix and indent: the output of Indent (trailing whitespace included) is again a text of the grammar,
+hence accepted by v1.Valid. -/
+theorem v1indent_blank_out_valid (pre ind src out : Bytes) (hp : isBlank pre = true) (hi : isBlank ind = true)
+    (h : indent pre ind src = some out) : valid out = true := by
+  have hm := v1indent_blank_meaning pre ind src out hp hi h
+  have hs : (Fmt.tokenize src).isSome = true := by
+    rw [← (v1_compact_indent_succeed_together pre ind src).2, h]; rfl
+  rw [← hm] at hs
+  exact (v1valid_iff out).mpr ((Props.C12.tokenize_iff_text _ out).mp hs)
+
+/-- The output of Compact is accepted by v1.Valid. -/
+theorem v1compact_out_valid (src out : Bytes) (h : compact src = some out) : valid out = true := by
+  have hs : (compact out).isSome = true := by rw [v1compact_idem src out h]; rfl
+  exact (v1_valid_compact_indent_together [] [] out).1.mpr hs
 
 /-- hypotheses are satisfiable: `[1]` + newline + two spaces, prefix `>`, indent `--` (the D4 repro) -/
 example : Fmt.tokenize [0x5B, 0x31, 0x5D, 0x0A, 0x20, 0x20] = some [.ba, .num [0x31], .ea] := by decide
